@@ -22,6 +22,17 @@ from fst import FST
 from fst.astutil import repr_str_multiline
 
 PROPERTY = 'C08'
+
+
+def _undoc_tree(dump):
+    """docstring-like statements (multi-line str expression statements) compare up to the documented re-indentation of their continuation
+    lines: a copy dedents them, and an own copy / own pure AST / own source put back carries that indentation"""
+    import re
+    def fix(m):
+        v = ast.literal_eval(m.group(1))
+        return 'Expr(value=Constant(value=' + repr('\n'.join(l.lstrip() for l in v.split('\n'))) + '))'
+    return re.sub(r"Expr\(value=Constant\(value=('(?:[^'\\]|\\.)*'|\"(?:[^\"\\]|\\.)*\")\)\)", fix, dump)
+
 THOROUGH_SCALE = 2.0
 
 ALPHA = [34, 39, 92, 10, 9, 0, 0x2028, 97, 0xE9, 0x1F600]
@@ -163,7 +174,7 @@ def _mk_roundtrip(cid, form):
                     fail(sig + '.cannot_replace_node_by_itself', (type(elt.a).__name__, type(ex).__name__, str(ex)[:200]))
             with pc.untraced():
                 t = pc.o_parse(x.root, sig)
-                check(ast.dump(t) == struct0, sig + '.structure_changed', (pc.R(x.root.src),))
+                check(_undoc_tree(ast.dump(t)) == _undoc_tree(struct0), sig + '.structure_changed', (pc.R(x.root.src),))
                 try:
                     x.cont = c.locate(x.root)
                 except (AttributeError, IndexError):
